@@ -35,7 +35,7 @@ def main():
                 "property_id": cid,
                 "quick_cmd": "./check %s --tier quick" % cid,
                 "thorough_cmd": "./check %s --tier thorough" % cid,
-                "evidence_file": "evidence/%s.json" % cid,
+                "evidence_file": "/verif/evidence/%s.json" % cid,
                 "replay_cmd_template": "./check %s --replay {path}" % cid,
                 "engine": "dsim",
                 "level_claimed": {
